@@ -85,14 +85,14 @@ Definition wheel_max (tcp udp def : Z) : Z :=
   if (def <? tmin)%Z then tmax else if (tmax <? def)%Z then def else tmax.
 Definition new_ct (tcp udp def : Z) : ctrack := mkCt [] (init (wheel_min tcp udp def) (wheel_max tcp udp def)).
 
-(* evict(p): not tracked any more -> nothing; Expires still ahead -> Advance + re-Add with the remaining time;
-   otherwise (Expires - now <= 0) delete the entry. *)
+(* evict(p): not tracked any more -> nothing; Expires not in the past (Expires - now >= 0, F24 repair: the same
+   boundary as the lookup) -> Advance + re-Add with the remaining time; otherwise (Expires < now) delete the entry. *)
 Definition evict (now : Z) (p : tuple) (ct : ctrack) : ctrack :=
   match cfind p (ct_conns ct) with
   | None => ct
   | Some c =>
       let newT := (c_exp c - now)%Z in
-      if (0 <? newT)%Z then mkCt (ct_conns ct) (add p newT (advance now (ct_wheel ct)))
+      if (0 <=? newT)%Z then mkCt (ct_conns ct) (add p newT (advance now (ct_wheel ct)))
       else mkCt (cdel p (ct_conns ct)) (ct_wheel ct)
   end.
 
